@@ -14,12 +14,14 @@
 (***************************************************************************)
 EXTENDS Judges, TraceCommon
 
-VARIABLES kind, ctor, ents, rets, prev, psum, l
-tvars == <<kind, ctor, ents, rets, prev, psum, l>>
+VARIABLES kind, ctor, ents, rets, prev, psum, dead, l
+tvars == <<kind, ctor, ents, rets, prev, psum, dead, l>>
 
 \* psum: byte sum of the previously observed image of this table (-1: none) -- a wrong checksum is reported at
 \* the operation that broke it, not again at every later operation that correctly carries the error along
-TInit == kind = "" /\ ctor = <<>> /\ ents = <<>> /\ rets = <<>> /\ prev = <<>> /\ psum = -1 /\ l = 1
+\* dead: an operation panicked although the specification accepts it (reported once); the object's state is then
+\* unknown and the rest of that program is not judged
+TInit == kind = "" /\ ctor = <<>> /\ ents = <<>> /\ rets = <<>> /\ prev = <<>> /\ psum = -1 /\ dead = FALSE /\ l = 1
 E == Rec[l]
 
 FreeDefaults == [rev |-> <<0>>, minor |-> <<0>>, facs_version |-> <<0>>, tcg_rev |-> <<0, 0>>]
@@ -57,24 +59,30 @@ JudgeBig(k) ==
 
 TNew ==
   /\ E.ev = "new"
-  /\ kind' = E.kind /\ ctor' = E.ctor @@ FreeDefaults /\ ents' = <<>> /\ rets' = <<>>
+  /\ kind' = E.kind /\ ctor' = E.ctor @@ FreeDefaults /\ ents' = <<>> /\ rets' = <<>> /\ dead' = E.panic
   /\ Judge("C18", ~E.panic => CtorFits(E.kind, E.ctor), F("oversize_constructor_not_refused", [z |-> 0]))
   /\ IF E.panic THEN prev' = <<>> /\ psum' = -1 /\ Judge("C04", ~CtorFits(E.kind, E.ctor), F("constructor_panicked", [z |-> 0]))
      ELSE IF Has(E, "big") THEN JudgeBig(kind') /\ prev' = <<>> /\ psum' = E.sum8
      ELSE prev' = E.img /\ psum' = Sum8(E.img) /\ JudgeImage(kind', ctor', <<>>, <<>>, E.img, <<>>, -1)
 
+Refused == [op |-> "refused"]       \* placeholder keeping operation indices aligned (references are by index)
 TOp ==
   /\ E.ev = "op"
   /\ UNCHANGED <<kind, ctor>>
-  /\ IF E.panic
-     THEN \* an operation the harness expected to succeed panicked: report under the property being judged
-          /\ UNCHANGED <<ents, rets, prev, psum>>
+  /\ IF dead THEN UNCHANGED <<ents, rets, prev, psum, dead>>
+     ELSE IF E.panic
+     THEN LET fits == OpFits(kind, ctor, ents, rets, E.op) IN
+          /\ ents' = Append(ents, Refused) /\ rets' = Append(rets, <<>>)
+          /\ dead' = fits
           \* a refused operation yields no image: the caller's values did not land anywhere (C04); for the matrix
           \* operations it is also C12's "every in-range pair is accepted"
           \* (unless the specification itself refuses the operation: oversize counts, C18)
-          /\ Judge("C04", ~OpFits(kind, ctor, ents, rets, E.op), F("unexpected_panic", [z |-> 0]))
-          /\ Judge("C12", ~(E.op.op \in {"set_distance", "add_system_locality"}), F("unexpected_panic", [z |-> 0]))
-     ELSE /\ ents' = Append(ents, E.op) /\ rets' = Append(rets, E.ret)
+          /\ Judge("C04", ~fits, F("unexpected_panic", [z |-> 0]))
+          /\ Judge("C12", ~(fits /\ E.op.op \in {"set_distance", "add_system_locality"}), F("unexpected_panic", [z |-> 0]))
+          \* a refusal leaves the table exactly as it was: judged like any other observed state (the placeholder adds nothing)
+          /\ IF fits \/ ~E.observed \/ Has(E, "big") \/ Has(E, "ser_panic") THEN prev' = <<>> /\ psum' = -1
+             ELSE JudgeImage(kind, ctor, ents', rets', E.img, prev, psum) /\ prev' = E.img /\ psum' = Sum8(E.img)
+     ELSE /\ ents' = Append(ents, E.op) /\ rets' = Append(rets, E.ret) /\ dead' = FALSE
           /\ Judge("C18", OpFits(kind, ctor, ents, rets, E.op), F("oversize_not_refused", [z |-> 0]))
           /\ IF ~E.observed THEN prev' = <<>> /\ psum' = -1
              ELSE IF Has(E, "big") THEN JudgeBig(kind) /\ prev' = <<>> /\ psum' = E.sum8
@@ -85,7 +93,7 @@ TOp ==
 CountAt == [RIMT |-> 36, HEST |-> 36, RQSC |-> 36, RHCT |-> 48]
 TSum ==
   /\ E.ev = "sum"
-  /\ UNCHANGED <<kind, ctor, ents, rets, prev>>
+  /\ UNCHANGED <<kind, ctor, ents, rets, prev, dead>>
   /\ psum' = E.sum8
   /\ LET FS(what, more) == [l |-> l, run |-> E.run, kind |-> E.kind, what |-> what, n |-> E.i, op |-> E.opname,
                             sig |-> E.kind \o "/" \o E.opname \o "/" \o what] @@ more IN
